@@ -172,14 +172,21 @@ def version_bounds_of_conn(body, bb, conn_operand):
         c = g["call"]
         if c.name not in ("lt", "ge", "le", "gt") or not (c.trait or "").endswith("cmp::PartialOrd"):
             continue
-        consts = [d for d in body.describe(c.args[1]) if d.startswith("const:aldrin_core::ProtocolVersion::V1_")]
+        op = c.name
+        a_subj, a_const = c.args[0], c.args[1]
+        consts = [d for d in body.describe(a_const) if d.startswith("const:aldrin_core::ProtocolVersion::V1_")]
+        if len(consts) != 1:
+            # the comparison may be written the other way round: `V1_16 <= conn.version()`
+            a_subj, a_const = c.args[1], c.args[0]
+            consts = [d for d in body.describe(a_const) if d.startswith("const:aldrin_core::ProtocolVersion::V1_")]
+            op = {"lt": "gt", "gt": "lt", "le": "ge", "ge": "le"}[op]
         if len(consts) != 1:
             continue
         minor = int(consts[0].rsplit("_", 1)[1])
-        subj = [vc for vc in body.origin_calls(c.args[0]) if vc is not None and vc.callee == "aldrin_broker::broker::conn_state::ConnectionState::version"]
+        subj = [vc for vc in body.origin_calls(a_subj) if vc is not None and vc.callee == "aldrin_broker::broker::conn_state::ConnectionState::version"]
         if not subj or not any(conn_identity(body, vc.args[0]) & ident for vc in subj):
             continue
-        val, op = labels[0], c.name
+        val = labels[0]
         if (op == "ge" and val) or (op == "lt" and not val):
             lo = max(lo, minor) if lo is not None else minor
         elif (op == "lt" and val) or (op == "ge" and not val):
